@@ -103,3 +103,32 @@ Example recursion_counted_once :
   nv_flat (nget Z Z.eqb 2 (g_nodes g)) = 5 /\ nv_flat (nget Z Z.eqb 1 (g_nodes g)) = 0 /\
   fst (ew Z Z.eqb 1 2 (g_edges g)) = 5 /\ fst (ew Z Z.eqb 2 1 (g_edges g)) = 5.
 Proof. vm_compute. repeat split; reflexivity. Qed.
+
+(* ---- glue (end-to-end layer): what the driver does to the options before the report sees them ---- *)
+(* a node count that was given -- 0 included -- reaches the report unchanged, for every command but
+   callgrind: "nodecount=0" is the request for an untrimmed report *)
+Theorem explicit_nodecount_kept : forall format n,
+  String.eqb format "callgrind" = false -> n <> -1 -> override_nodecount format false n = n.
+Proof. exact explicit_nodecount_kept_lemma. Qed.
+Print Assumptions explicit_nodecount_kept.
+
+(* trim=false switches the node count and both cutoffs off, whatever was given *)
+Theorem notrim_switches_limits_off : forall format n c,
+  override_nodecount format true n = 0 /\ override_cutoff format true c = 0.
+Proof. exact notrim_switches_off_lemma. Qed.
+Print Assumptions notrim_switches_limits_off.
+
+(* the legacy flags (-inuse_space, -mean_delay ...) never replace an explicit -sample_index *)
+Theorem legacy_keeps_explicit_index : forall flags si, si <> ""%string -> legacy_si flags si = si.
+Proof. exact legacy_keeps_explicit_lemma. Qed.
+Print Assumptions legacy_keeps_explicit_index.
+
+(* the defaults the code has now: no limit for top/text, 80 for graph-style commands; the web /top
+   page asks for 500; an interactive command's own count wins over the session's for that command *)
+Example nodecount_defaults :
+  override_nodecount "text" false (-1) = 0 /\ override_nodecount "tree" false (-1) = 80 /\
+  override_nodecount "dot" false (-1) = 80 /\ override_nodecount "tree" false 0 = 0 /\
+  entry_nodecount "web" "text" false 0 7 = 500 /\ entry_nodecount "session" "tree" true 3 7 = 3 /\
+  entry_nodecount "session" "tree" false 3 7 = 7 /\ entry_nodecount "session" "text" false 0 (-1) = 10 /\
+  entry_nodecount "cli" "text" false 0 (-1) = -1.
+Proof. vm_compute. repeat split; reflexivity. Qed.
